@@ -683,6 +683,16 @@ func (vc *VC) run() {
 		t := vc.q.Declare("fv$"+sanitize(fv.Name()), vc.sortOf(fv.Type()))
 		fr.freeVars[fv] = t
 		vc.q.Assert(vc.wfAssume(st, t, fv.Type(), 0))
+		// a captured variable is a variable of the enclosing function: an object of its own (never a field or an
+		// element of another object), distinct from every other captured variable
+		vc.q.Assert(Eq(PathOf(t), Term{"PNil", SPath}))
+		vc.q.Assert(Not(Eq(t, NilP)))
+		for _, other := range fn.FreeVars {
+			if other == fv {
+				break
+			}
+			vc.q.Assert(Not(Eq(Root(t), Root(fr.freeVars[other]))))
+		}
 	}
 	for i, fv := range fn.FreeVars {
 		// a captured variable that is written once, before any closure over it exists, and never handed out by
